@@ -13,13 +13,13 @@ Lemma roundtrip_js_fact : forall old new, wf old = true -> wf new = true ->
 Proof. intros old new Ho Hn. exact (roundtrip_js_all new old Ho Hn). Qed.
 
 Lemma convergence_l : forall cfg h s rid r,
-  forallb good_label h = true -> run cfg init h = Some s ->
+  forallb good_label h = true -> run cfg init h = Some s -> st_wfail s = false ->
   st_runners s rid = Some r -> r_kind r = KSub -> r_initial r = false ->
   jeq (client_state rid s) (strip (r_prev r)).
 Proof. exact (convergence roundtrip_js_fact). Qed.
 
 Lemma first_message_full_l : forall cfg h s rid r,
-  forallb good_label h = true -> run cfg init h = Some s ->
+  forallb good_label h = true -> run cfg init h = Some s -> st_wfail s = false ->
   st_runners s rid = Some r -> r_kind r = KSub ->
   match writes_of rid s with [] => True | e :: _ => is_full e \/ e_type e = EError end.
 Proof. exact (first_message_full roundtrip_js_fact). Qed.
